@@ -89,12 +89,13 @@ type source struct {
 	r        *rng
 	calls    int
 	failAt   int
+	once     bool // the fault fires at that call only (a transient failure)
 	consumed int
 }
 
 func (s *source) Read(p []byte) (int, error) {
 	s.calls++
-	if s.failAt > 0 && s.calls >= s.failAt {
+	if s.failAt > 0 && (s.calls == s.failAt || (!s.once && s.calls > s.failAt)) {
 		return 0, errInjected
 	}
 	if len(p) == 0 {
@@ -624,6 +625,7 @@ type crCase struct {
 	sizes []int
 	frag  int
 	fault int
+	once  bool // the source fails at that call only
 }
 
 func (c *crCase) fields() string {
@@ -631,13 +633,13 @@ func (c *crCase) fields() string {
 	for i, s := range c.sizes {
 		ss[i] = strconv.Itoa(s)
 	}
-	return fmt.Sprintf("data=%s opts=%s sizes=%s frag=%d fault=%d", c.data, c.opts, strings.Join(ss, ","), c.frag, c.fault)
+	return fmt.Sprintf("data=%s opts=%s sizes=%s frag=%d fault=%d once=%d", c.data, c.opts, strings.Join(ss, ","), c.frag, c.fault, b2i(c.once))
 }
 
 func runCR(c *crCase) string {
 	return withWatchdog(8*time.Second, func() string {
 		d := parseData(c.data)
-		src := &source{data: d, frag: c.frag, failAt: c.fault, r: newRng(uint64(len(d)), "cr")}
+		src := &source{data: d, frag: c.frag, failAt: c.fault, once: c.once, r: newRng(uint64(len(d)), "cr")}
 		zr := lz4.NewCompressingReader(nopCloser{src})
 		ao := "nil"
 		if c.opts != "-" && c.opts != "" {
@@ -694,6 +696,11 @@ func runCR(c *crCase) string {
 			}
 		}
 		obs := fmt.Sprintf("apply=%s nreads=%d final=%s out=%s oracle_progress=%s", ao, len(res), final, hx(all), progress)
+		if c.once || (c.fault > 0 && c.frag != 0) {
+			// transient failures and call-counted failures of fragmenting sources are outside the
+			// model's sources (which count io.ReadFull calls): oracles only
+			obs = fmt.Sprintf("x_apply=%s x_nreads=%d x_final=%s x_out=%s oracle_progress=%s", ao, len(res), final, hx(all), progress)
+		}
 		// a frame that the library's own Reader decodes to the source
 		rt := "ok"
 		if c.fault == 0 {
